@@ -309,12 +309,25 @@ func (db *RockDB) ZAdd(ts int64, key []byte, args ...common.ScorePair) (int64, e
 	defer wb.Clear()
 
 	var num int64
+	var lastPos map[string]int
+	if len(args) > 1 {
+		lastPos = make(map[string]int, len(args))
+		for i := 0; i < len(args); i++ {
+			lastPos[string(args[i].Member)] = i
+		}
+	}
 	for i := 0; i < len(args); i++ {
 		score := args[i].Score
 		member := args[i].Member
 
 		if err := common.CheckKeySubKey(key, member); err != nil {
 			return 0, err
+		}
+		if lastPos != nil && lastPos[string(member)] != i {
+			// a member repeated in one call is set (and counted) once, with its last score:
+			// zSetItem only sees committed data, so setting it twice would count it twice
+			// and leave the score index entry of the earlier score behind
+			continue
 		}
 		if n, err := db.zSetItem(table, keyInfo.VerKey, score, member, wb); err != nil {
 			return 0, err
